@@ -103,5 +103,27 @@ def class_filter(valid):
     )
 
 
-CONTRACTS = [PERCENT, SUBSET_IDX, SUBSET_PCT, REPEAT, SHUFFLE, class_filter(True), class_filter(False)]
+
+# ---- sort by class: a permutation of the labelled samples in strict (class, original position) order - that is non-decreasing class
+#      order with stable ties, no sample twice (strictness) and no labelled sample lost (completeness)
+LEX = "(LabelOf(dataset, {a}) < LabelOf(dataset, {b}) or (LabelOf(dataset, {a}) == LabelOf(dataset, {b}) and {a} < {b}))"
+SORT = dict(
+    target=f"{W}/sort_by_class_wrapper.py::SortByClassWrapper.__init__", self={}, merge=False,
+    params={"dataset": LABELDATASET},
+    loops={0: dict(anchor="for i in range(num_classes)", index="c", havoc_types={"indices": TSeq(INT)},
+                   invariant=[f"forall(lambda k: implies(0 <= k and k < len(indices), 0 <= indices[k] and indices[k] < {N} and "
+                              "0 <= LabelOf(dataset, indices[k]) and LabelOf(dataset, indices[k]) < c))",
+                              "forall(lambda k: implies(0 <= k and k + 1 < len(indices), "
+                              + LEX.format(a="indices[k]", b="indices[k + 1]") + "))",
+                              f"forall(lambda j: implies(0 <= j and j < {N} and 0 <= LabelOf(dataset, j) and LabelOf(dataset, j) < c, "
+                              "exists(lambda k: 0 <= k and k < len(indices) and indices[k] == j)))"])},
+    ensures=[f"forall(lambda k: implies(0 <= k and k < len(self.indices), 0 <= self.indices[k] and self.indices[k] < {N}))",
+             "forall(lambda k: implies(0 <= k and k + 1 < len(self.indices), "
+             + LEX.format(a="self.indices[k]", b="self.indices[k + 1]") + "))",
+             f"forall(lambda j: implies(0 <= j and j < {N} and 0 <= LabelOf(dataset, j), "
+             "exists(lambda k: 0 <= k and k < len(self.indices) and self.indices[k] == j)))"],
+)
+
+
+CONTRACTS = [PERCENT, SUBSET_IDX, SUBSET_PCT, REPEAT, SHUFFLE, class_filter(True), class_filter(False), SORT]
 TERMINATION = [OVER_EXACT]
